@@ -10,6 +10,7 @@ import subprocess
 import sys
 
 VERIF = os.path.dirname(os.path.dirname(os.path.abspath(__file__)))
+REPO = os.environ.get('VERIF_REPO', '/repo')      # a scratch copy when several sweeps run side by side (vp run --with-repo)
 REGRESS_TARGETS = {
     'C01-C09-body-text-unescaped': ['C01', 'C09'], 'C01-br-end-tag-doubles': ['C01'], 'C01-leading-text-whitespace-dropped': ['C01'],
     'C01-limit-spacers-drops-tags': ['C01'], 'C01-other-posts-reorders-tags': ['C01'], 'C02-reconcile-drops-content': ['C02'],
@@ -24,14 +25,14 @@ def sh(*args, **kw):
 
 
 def run_one(patch, props):
-    if sh('git', '-C', '/repo', 'status', '--porcelain').stdout.strip():
+    if sh('git', '-C', REPO, 'status', '--porcelain').stdout.strip():
         raise SystemExit('repo not clean')
-    ap = sh('git', '-C', '/repo', 'apply', patch)
+    ap = sh('git', '-C', REPO, 'apply', patch)
     if ap.returncode != 0:
-        ap = sh('git', '-C', '/repo', 'apply', '-3', patch)
-        sh('git', '-C', '/repo', 'reset', '-q')
+        ap = sh('git', '-C', REPO, 'apply', '-3', patch)
+        sh('git', '-C', REPO, 'reset', '-q')
         if ap.returncode != 0 or 'conflict' in ap.stderr.lower():
-            sh('git', '-C', '/repo', 'checkout', '--', '.')
+            sh('git', '-C', REPO, 'checkout', '--', '.')
             return {p: {'applies': False} for p in props}
     out = {}
     try:
@@ -43,7 +44,7 @@ def run_one(patch, props):
                       'with_failing_input': len([l for l in r.stdout.splitlines() if l.startswith('VIOLATION') and not l.rstrip().endswith('no-failing-input-found')]),
                       'failed_obligations': [f[:160] for f in failed]}
     finally:
-        sh('git', '-C', '/repo', 'checkout', '--', '.')
+        sh('git', '-C', REPO, 'checkout', '--', '.')
     return out
 
 
